@@ -80,9 +80,7 @@ def chdir_sequences(ds, scratch):
             steps = [(0, ds[0], "json"), (1, ds[-1], "xml"), (0, ds[-1], "provn"), (2, ds[0], "rdf"), (1, ds[0], "json")]
             for k, (di, doc, fmt) in enumerate(steps):
                 n += 1
-                ref = io.BytesIO()
-                doc.serialize(ref, format=fmt)
-                expected = ref.getvalue()
+                expected = doc.serialize(format=fmt).encode("utf-8")
                 before = [snapshot(x) for x in dirs]
                 os.chdir(dirs[di])
                 try:
@@ -156,9 +154,9 @@ def run_case(doc, fmt, name, preexisting, fault, scratch, cross_fs=False):
     os.makedirs(os.path.join(work, "sub/dir"), exist_ok=True)
     target = real[len("file://"):] if real.startswith("file://") else real
     target_abs = target if os.path.isabs(target) else os.path.join(work, target)
-    ref = io.BytesIO()
-    doc.serialize(ref, format=fmt)
-    expected = ref.getvalue()
+    # the complete serialisation: the text serialize() returns, UTF-8 encoded (not what a binary stream receives — that goes
+    # through the same writer branch as the file and would share its mistakes)
+    expected = doc.serialize(format=fmt).encode("utf-8")
     if preexisting:
         if preexisting == "same-length":
             old = b"x" * len(expected)                   # as long as what is about to be written, nothing in common
